@@ -60,7 +60,7 @@ def _same(res, ref, level, full=False):
         return f"dims {res.dims} vs {ref.dims}"
     if res.shape != ref.shape:
         return f"shape {res.shape} vs {ref.shape}"
-    if res.dtype != ref.dtype:
+    if res.dtype.newbyteorder("=") != ref.dtype.newbyteorder("="):
         return f"dtype {res.dtype} vs {ref.dtype}"
     ca, cb = res.coords.variables, ref.coords.variables
     if sorted(ca) != sorted(cb):
@@ -178,6 +178,7 @@ def execute(plan, props):
                 bump("complete-int-slice-families")
             for ix in family:
                 sels.append({"kind": "isel", axis: ix})
+        kept = []
         for k_sel, sel in enumerate(sels):
             cls = select.classify(sel, n, p)
             try:
@@ -215,9 +216,21 @@ def execute(plan, props):
                     if why is not None:
                         violations.append(Violation("C02", "mismatch", cls, {
                             "selection": sel, "why": why, "shape": [n, p], "rpc": r}))
+                    elif len(kept) < 8 and got.size:
+                        kept.append((cls, sel, got, want))
             if "C11" in props and w.backend in world.RECORDED and err is None:
                 violations.extend(check_load_events(load_events, sel, cls, name, n, r_eff, ext,
                                                     fsize, rel))
+        if "C02" in props:
+            # results handed out earlier must still hold after the later reads through the same
+            # variable (a result that aliases a reused buffer changes behind the caller's back)
+            for cls, sel, got, want in kept:
+                why = _same(got, want, prod.level)
+                bump("retained-results-rechecked")
+                if why is not None:
+                    violations.append(Violation("C02", "result-changed-after-later-reads", cls, {
+                        "selection": sel, "why": why, "shape": [n, p], "rpc": r}))
+                    break
         return common.outcome(SIM, violations, keys, stats)
     finally:
         w.destroy()
